@@ -46,6 +46,17 @@ CHECKS["C19"] = dict(
     technique="symbolic execution of rustc MIR (mirsym) incl. Drop glue + SMT (z3) with solver-enumerated marker patterns; witness replay on the real crate",
     note="Inner writer = in-memory sink that never fails. Streaming half not applicable (see level text). " + BASE_NOTE)
 
+CHECKS["C13"] = dict(
+    text="Bounded model checking from MIR of create_dependency_graph, get_dependencies, BuildpackDependencyGraphNode's DependencyNode "
+         "impl and petgraph's own DfsPostOrder::{empty, move_to, next}: every labelled DAG on 1..4 nodes (quick; edges as solver "
+         "variables with an acyclicity ranking) / 1..5 nodes in both insertion orders (thorough), both dependency-list orders, every ordered "
+         "root selection without repetition (<= 2 / <= 3 roots), optionally one dependency on an unknown id. Per path the solver decides: "
+         "output == reachable closure of the roots, each once, every node after all its dependencies; dangling => Err(MissingDependency).",
+    design_ref="DESIGN.md §5 C13",
+    technique="symbolic execution of rustc MIR of libcnb-package and petgraph (mirsym) with edges as SMT variables + z3; witness replay through the public API on a temp workspace",
+    note="petgraph::Graph storage (adjacency order: newest edge first) and the FixedBitSet visit map are summaries. Reading "
+         "buildpack.toml/package.toml into nodes is outside (C08/C14/C15). " + BASE_NOTE)
+
 NOT_YET = "check not built yet in this round (see DESIGN.md §9 build order); no claim is made"
 NOT_APPLICABLE = {}
 ALL = [f"C{i:02d}" for i in range(1, 21)]
